@@ -60,7 +60,7 @@ func checkC17(w *World, r *Report) {
 	r.Rule("HK-DISPATCH", "multi-listener methods agree: loop over all elements, same method, same arguments, error returned", 40)
 	r.Rule("HK-WRAP", "keeper wrappers forward to the registered listener and return its error", 30)
 	r.Rule("HK-SITE", "hook sites: once per success path, ordered w.r.t. the announced write, real values", 30)
-	r.Rule("HK-CHAIN", "listener errors propagate to the handler / block hook", 20)
+	r.Rule("HK-CHAIN", "listener errors propagate to the handler / block hook", 12)
 
 	tm := NewTerms(w)
 	fs := &failSummary{w: w, tm: tm, memo: map[*ssa.Function]bool{}}
